@@ -283,24 +283,47 @@ mutual
         (Consistent.cons (Consistent.wrap _ _ _ (Consistent.nil _ _) noClaim) ?_)) ?_
       · simpa [List.append_assoc] using h2
       · simpa [List.append_assoc] using (claim0 (s := start) (l0 := l0))
-    | .directiveML name domain arg kids, start => by
+    | .directiveML name domain nextLine arg kids, start => by
       simp only [emit]
-      generalize hl0 : (".. " ++ name ++ ":: " ++ headLine (inlLines arg "")) = l0
+      generalize hl1 : (spaces ℓ.bodyIndent ++ headLine (inlLines arg "")) = l1
       generalize hrest : (((inlLines arg "").drop 1).map fun l => spaces ℓ.bodyIndent ++ l) = rest
       generalize hg : (if kids.isEmpty = true then 0 else ℓ.gapAt start) = g
-      have hk := emitSeq_consistent ℓ kids SeqMode.blocks (start + (l0 :: rest).length + g)
-      have hlen : start + (l0 :: rest).length + g = start + ((l0 :: rest) ++ blanks g).length := by
-        simp [blanks_length]; omega
-      rw [hlen] at hk
-      have h2 := Consistent.shift (s := start) ((l0 :: rest) ++ blanks g)
-        (Consistent.prefix ℓ.padBlank (spaces ℓ.bodyIndent) (spaces ℓ.bodyIndent) hk)
-      rw [← hlen] at h2
-      refine Consistent.wrap _ _ _ (Consistent.cons (Consistent.wrap _ _ _ (Consistent.nil _ _) noClaim)
-        (Consistent.cons (Consistent.wrap _ _ _ (Consistent.nil _ _) noClaim)
-          (Consistent.cons (Consistent.wrap _ _ _ (inlNodes_consistent _ _ _) ?_) ?_))) ?_
-      · simpa [List.append_assoc] using (claim0 (s := start) (l0 := l0))
-      · simpa [List.append_assoc] using h2
-      · simpa [List.append_assoc] using (claim0 (s := start) (l0 := l0))
+      cases nextLine with
+      | false =>
+        simp only [Bool.false_eq_true, if_false]
+        generalize hl0 : (".. " ++ name ++ ":: " ++ headLine (inlLines arg "")) = l0
+        have hk := emitSeq_consistent ℓ kids SeqMode.blocks (start + (l0 :: rest).length + g)
+        have hlen : start + (l0 :: rest).length + g = start + ((l0 :: rest) ++ blanks g).length := by
+          simp [blanks_length]; omega
+        rw [hlen] at hk
+        have h2 := Consistent.shift (s := start) ((l0 :: rest) ++ blanks g)
+          (Consistent.prefix ℓ.padBlank (spaces ℓ.bodyIndent) (spaces ℓ.bodyIndent) hk)
+        rw [← hlen] at h2
+        refine Consistent.wrap _ _ _ (Consistent.cons (Consistent.wrap _ _ _ (Consistent.nil _ _) noClaim)
+          (Consistent.cons (Consistent.wrap _ _ _ (Consistent.nil _ _) noClaim)
+            (Consistent.cons (Consistent.wrap _ _ _ (inlNodes_consistent _ _ _) ?_) ?_))) ?_
+        · simpa [List.append_assoc] using (claim0 (s := start) (l0 := l0))
+        · simpa [List.append_assoc] using h2
+        · simpa [List.append_assoc] using (claim0 (s := start) (l0 := l0))
+      | true =>
+        simp only [if_true]
+        generalize hl0 : (".. " ++ name ++ "::") = l0
+        have hk := emitSeq_consistent ℓ kids SeqMode.blocks (start + (l0 :: l1 :: rest).length + g)
+        have hlen : start + (l0 :: l1 :: rest).length + g = start + ((l0 :: l1 :: rest) ++ blanks g).length := by
+          simp [blanks_length]; omega
+        rw [hlen] at hk
+        have h2 := Consistent.shift (s := start) ((l0 :: l1 :: rest) ++ blanks g)
+          (Consistent.prefix ℓ.padBlank (spaces ℓ.bodyIndent) (spaces ℓ.bodyIndent) hk)
+        rw [← hlen] at h2
+        refine Consistent.wrap _ _ _ (Consistent.cons (Consistent.wrap _ _ _ (Consistent.nil _ _) noClaim)
+          (Consistent.cons (Consistent.wrap _ _ _ (Consistent.nil _ _) noClaim)
+            (Consistent.cons (Consistent.wrap _ _ _ (inlNodes_consistent _ _ _) ?_) ?_))) ?_
+        · intro ln txt h
+          simp only [Option.some.injEq, Prod.mk.injEq] at h
+          obtain ⟨rfl, rfl⟩ := h
+          exact ⟨by omega, by simp⟩
+        · simpa [List.append_assoc] using h2
+        · simpa [List.append_assoc] using (claim0 (s := start) (l0 := l0))
     | .code dirname lang opts attrs ls, start => by
       simp only [emit]
       refine Consistent.wrap _ _ _ (Consistent.nil _ _) ?_
